@@ -20,6 +20,9 @@ type ValState struct {
 	Oper   string `json:"oper"` // bech32 valoper
 	Bonded bool   `json:"bonded"`
 	Power  int64  `json:"power"`
+	// Unbonding: the validator left the bonded set and its unbonding period is running (status
+	// Unbonding: neither IsBonded nor IsUnbonded). Only meaningful when Bonded is false.
+	Unbonding bool `json:"unbonding,omitempty"`
 }
 
 // Staking is a scripted types.StakingKeeper. The zero Order returns bonded
@@ -47,6 +50,8 @@ func (s *Staking) mk(v ValState) stakingtypes.Validator {
 	st := stakingtypes.Unbonded
 	if v.Bonded {
 		st = stakingtypes.Bonded
+	} else if v.Unbonding {
+		st = stakingtypes.Unbonding
 	}
 	return stakingtypes.Validator{
 		OperatorAddress: v.Oper,
